@@ -68,6 +68,14 @@ inductive Expr where
   | fnilE | fcons (name : String) (e rest : Expr)
   | ctor (cls : String) (fields : Expr)         -- `Cls(name=e, …)`
   | call (f : String) (args : Expr)             -- a call into other code: `ext f args`
+  | toTup (a : Expr)                            -- `tuple(a)`
+  | isInt (a : Expr)                            -- `isinstance(a, int)`
+  | anyGen (v : String) (it c e : Expr)         -- `any(e for v in it if c)`, short-circuit
+  | allGen (v : String) (it c e : Expr)         -- `all(e for v in it if c)`, short-circuit
+  | nextGen (v : String) (it c e : Expr)        -- `next(e for v in it if c)`: the first one (`StopIteration` if none)
+  | maxGen (v : String) (it c e : Expr)         -- `max(e for v in it if c)` on ints (`ValueError` if none)
+  | comp (v : String) (it c e : Expr)           -- `[e for v in it if c]` / `filter(lambda v: c, it)` made a list
+  | maxKey (v : String) (it key : Expr)         -- `max(it, key=lambda v: key)`: the first element whose key is largest
   deriving Repr, DecidableEq, Inhabited
 
 inductive Stmt where
@@ -77,6 +85,7 @@ inductive Stmt where
   | unpack (xs : List String) (e : Expr)        -- `a, b, c = e`
   | setIdx (x : String) (i e : Expr)            -- `x[i] = e` on a local list
   | append (x : String) (e : Expr)              -- `x.append(e)` on a local list
+  | appendAt (x : String) (k e : Expr)          -- `x[k].append(e)` on a local map from keys to lists that creates missing entries
   | ite (c : Expr) (a b : Stmt)
   | while (c : Expr) (b : Stmt)
   | forIn (v : String) (e : Expr) (b orelse : Stmt)
@@ -220,6 +229,68 @@ def lenVal (v : Val) : M Val :=
     | .str s => .ok (.int s.length)
     | _ => unsupported "len"
 
+/-- does some element pass? (`f` is asked element by element, stopping at the first `true`) -/
+def anyM (f : Val → M Bool) : List Val → M Bool
+  | [] => .ok false
+  | x :: xs => f x >>= fun b => if b then .ok true else anyM f xs
+
+def allM (f : Val → M Bool) : List Val → M Bool
+  | [] => .ok true
+  | x :: xs => f x >>= fun b => if b then allM f xs else .ok false
+
+/-- `[e x for x in xs if c x]` -/
+def compM (c : Val → M Bool) (e : Val → M Val) : List Val → M (List Val)
+  | [] => .ok []
+  | x :: xs => c x >>= fun b =>
+    if b then e x >>= fun y => compM c e xs >>= fun ys => .ok (y :: ys) else compM c e xs
+
+/-- the first `e x` with `c x` -/
+def firstM (c : Val → M Bool) (e : Val → M Val) : List Val → M (Option Val)
+  | [] => .ok Option.none
+  | x :: xs => c x >>= fun b => if b then e x >>= fun y => .ok (some y) else firstM c e xs
+
+def maxInts : List Val → Option Int
+  | [] => Option.none
+  | .int n :: rest => match maxInts rest with
+    | some m => some (if m ≤ n then n else m)
+    | Option.none => if rest.isEmpty then some n else Option.none
+  | _ => Option.none
+
+/-- the first element whose key is the largest (`max(xs, key=…)`); keys are ints or timedeltas of one kind -/
+def firstMax : List (Val × Val) → Option Val
+  | [] => Option.none
+  | (x, k) :: rest =>
+    match rest, firstMax rest with
+    | [], _ => match numOf k with | some _ => some x | Option.none => Option.none
+    | (_, k') :: _, some y =>
+      if sameNumKind k k' then
+        -- `y` is the first maximal element of the rest; `x` wins ties because it comes first
+        match numOf k, (rest.find? (·.1 == y)).bind (fun p => numOf p.2) with
+        | some a, some b => if b ≤ a then some x else some y
+        | _, _ => Option.none
+      else Option.none
+    | _, Option.none => Option.none
+
+/-- `x[k].append(v)` on a map that creates missing entries (a `defaultdict(list)`): an association list in insertion order -/
+def appendAtVal (m k v : Val) : M Val :=
+  match m with
+  | .list sp => match sp.toList? with
+    | some es =>
+      let rec go : List Val → Option (List Val)
+        | [] => some [.tup (.cons k (.cons (.list (.cons v .nil)) .nil))]
+        | .tup (.cons k' (.cons (.list l) .nil)) :: rest =>
+          if k' == k then
+            match l.toList? with
+            | some xs => some (.tup (.cons k' (.cons (.list (Val.ofList (xs ++ [v]))) .nil)) :: rest)
+            | Option.none => Option.none
+          else (go rest).map (.tup (.cons k' (.cons (.list l) .nil)) :: ·)
+        | _ => Option.none
+      match go es with
+      | some es' => .ok (.list (Val.ofList es'))
+      | Option.none => unsupported "map entry"
+    | Option.none => unsupported "map"
+  | _ => unsupported "map"
+
 def evalExpr (ext : Ext) (env : Env) : Expr → M Val
   | .lit v => .ok v
   | .var x => lookup env x
@@ -254,6 +325,50 @@ def evalExpr (ext : Ext) (env : Env) : Expr → M Val
     match vs.toList? with
     | some l => ext f l
     | none => unsupported "argument spine"
+  | .toTup a => evalExpr ext env a >>= fun v =>
+    match seqOf v with
+    | some l => .ok (.tup (Val.ofList l))
+    | none => unsupported "tuple()"
+  | .isInt a => evalExpr ext env a >>= fun v => .ok (.bool (match v with | .int _ => true | .bool _ => true | _ => false))
+  | .anyGen v it c e => evalExpr ext env it >>= fun l =>
+    match seqOf l with
+    | some xs => anyM (fun x => evalExpr ext (setVar env v x) c >>= truth >>= fun b =>
+        if b then evalExpr ext (setVar env v x) e >>= truth else .ok false) xs >>= fun b => .ok (.bool b)
+    | none => unsupported "iteration"
+  | .allGen v it c e => evalExpr ext env it >>= fun l =>
+    match seqOf l with
+    | some xs => allM (fun x => evalExpr ext (setVar env v x) c >>= truth >>= fun b =>
+        if b then evalExpr ext (setVar env v x) e >>= truth else .ok true) xs >>= fun b => .ok (.bool b)
+    | none => unsupported "iteration"
+  | .nextGen v it c e => evalExpr ext env it >>= fun l =>
+    match seqOf l with
+    | some xs => firstM (fun x => evalExpr ext (setVar env v x) c >>= truth) (fun x => evalExpr ext (setVar env v x) e) xs >>= fun r =>
+      match r with
+      | some y => .ok y
+      | none => .error (.internal "StopIteration")
+    | none => unsupported "iteration"
+  | .maxGen v it c e => evalExpr ext env it >>= fun l =>
+    match seqOf l with
+    | some xs => compM (fun x => evalExpr ext (setVar env v x) c >>= truth) (fun x => evalExpr ext (setVar env v x) e) xs >>= fun ys =>
+      match ys with
+      | [] => .error .valueError
+      | _ => match maxInts ys with
+        | some m => .ok (.int m)
+        | none => unsupported "max of non-ints"
+    | none => unsupported "iteration"
+  | .maxKey v it key => evalExpr ext env it >>= fun l =>
+    match seqOf l with
+    | some [] => .error .valueError
+    | some xs => compM (fun _ => .ok true) (fun x => evalExpr ext (setVar env v x) key) xs >>= fun ks =>
+      match firstMax (xs.zip ks) with
+      | some y => .ok y
+      | none => unsupported "max key"
+    | none => unsupported "iteration"
+  | .comp v it c e => evalExpr ext env it >>= fun l =>
+    match seqOf l with
+    | some xs => compM (fun x => evalExpr ext (setVar env v x) c >>= truth) (fun x => evalExpr ext (setVar env v x) e) xs >>= fun ys =>
+      .ok (.list (Val.ofList ys))
+    | none => unsupported "iteration"
 
 /-- `l.append(v)` -/
 def appendVal (l v : Val) : M Val :=
@@ -319,6 +434,10 @@ def exec (ext : Ext) : Nat → Stmt → Env → Res
     | .append x e =>
       match lookup env x >>= fun l => evalExpr ext env e >>= fun v => appendVal l v with
       | .ok nl => .norm (setVar env x nl)
+      | .error err => .exc err env
+    | .appendAt x k e =>
+      match lookup env x >>= fun m => evalExpr ext env k >>= fun kv => evalExpr ext env e >>= fun v => appendAtVal m kv v with
+      | .ok nm => .norm (setVar env x nm)
       | .error err => .exc err env
     | .ite c a b =>
       match evalExpr ext env c >>= truth with
